@@ -17,7 +17,7 @@ DATES = ["2024-01-05T10:00:00Z", "2024-02-11T09:30:00Z", "2023-12-24T23:59:59Z",
 RESTS = ["", "", "", '<w:color w:val="FF0000"/>', '<w:sz w:val="28"/>', '<w:rFonts w:ascii="Arial" w:hAnsi="Arial"/>',
          '<w:u w:val="single"/>', '<w:rStyle w:val="Strong"/>']
 ONOFF = [None, None, None, "", "1", "0"]
-OPAQUE_ATOMS = ['<w:sym w:font="Symbol" w:char="F0B7"/>', "<w:noBreakHyphen/>", "<w:softHyphen/>",
+OPAQUE_ATOMS = ['<w:sym w:font="Symbol" w:char="F0B7"/>', "<w:softHyphen/>",
                 '<w:drawing><wp:inline distT="0" distB="0"><wp:extent cx="1" cy="1"/></wp:inline></w:drawing>',
                 "<w:lastRenderedPageBreak/>", '<w:footnoteReference w:id="2"/>']
 PPRS = ["", "", "", '<w:jc w:val="center"/>', '<w:numPr><w:ilvl w:val="0"/><w:numId w:val="1"/></w:numPr>',
@@ -94,7 +94,10 @@ class Gen:
         else:
             ch = [{"k": tk, "s": text}]
         if not plain and not deleted and self.chance("opaque"):
-            ch.insert(r.randint(0, len(ch)), {"k": "o", "xml": r.choice(OPAQUE_ATOMS)})
+            if r.random() < 0.25:
+                ch.insert(r.randint(0, len(ch)), {"k": "nbh"})
+            else:
+                ch.insert(r.randint(0, len(ch)), {"k": "o", "xml": r.choice(OPAQUE_ATOMS)})
             self.features.add("opaque_atom")
         f["ch"] = ch
         return f
